@@ -2,6 +2,12 @@ mod c01;
 mod c03;
 mod c04;
 mod c06;
+mod c07;
+mod c08;
+mod c09;
+mod c13;
+mod c14;
+mod c15;
 mod cases;
 mod dev;
 mod exec;
@@ -61,6 +67,13 @@ fn main() {
                 "C04" => c04::run(tier, seed),
                 "C01" => c01::run("C01", tier, seed),
                 "C06" => c06::run(tier, seed),
+                "C07" => c07::run(tier, seed),
+                "C13" => c13::run_c13(tier, seed),
+                "C08" => c08::run(tier, seed),
+                "C09" => c09::run("C09", tier, seed),
+                "C10" => c09::run("C10", tier, seed),
+                "C14" => c14::run(tier, seed),
+                "C15" => c15::run(tier, seed),
                 "C11" => c01::run_vec("C11", tier, seed),
                 "C12" => c01::run_vec("C12", tier, seed),
                 "C02" => c01::run("C02", tier, seed),
